@@ -432,6 +432,13 @@ impl<'a> ReMatcher<'a> {
             .is_duplicate_zero_length_match(repeat, position)
     }
 
+    pub(crate) fn forget_zero_length_match(&self, repeat: *const Repeat, position: usize) {
+        self.state
+            .borrow_mut()
+            .history
+            .forget_zero_length_match(repeat, position)
+    }
+
     // capture state related
 
     pub(crate) fn get_paren(&self, group_nr: usize) -> Option<&[char]> {
